@@ -399,6 +399,11 @@ func verifC16MakeBatch(rng *rand.Rand, n int) []*verifC16Sess {
 			s.DDelay = 0
 		}
 		s.NoDDL = rng.Intn(4) == 0
+		if s.Role == "pair-early" {
+			// the dialer really comes first: its first attempt finds no registration
+			s.ADelay = time.Duration(3000+rng.Intn(20000)) * time.Microsecond
+			s.DDelay = 0
+		}
 		out = append(out, s)
 	}
 	return out
